@@ -480,6 +480,19 @@ func c14Flags(c *core.Case, o *core.Outcome) {
 			continue
 		}
 		o.AddObs("accepted", 1)
+		if name == "ramp" {
+			// accepted rates must mean what they spell: both ends of the ramp are per the tick interval
+			_, su, sok := c14RefParse(set["start-rate"])
+			_, eu, eok := c14RefParse(set["end-rate"])
+			rd, _ := time.ParseDuration(set["ramp-duration"])
+			jv, _ := strconv.ParseFloat(set["jitter"], 64)
+			if rr, rerr := ramp.CalculateRampRate(set["start-rate"], set["end-rate"], "none", rd, jv); rerr == nil && sok && eok {
+				if rr.IterationDuration != su || rr.IterationDuration != eu {
+					o.Violate("flags-ramp-unit:"+desc, "ramp accepted with start-rate %q (per %v) and end-rate %q (per %v) and ticks every %v: one of the rates does not mean what it spells (%s)", set["start-rate"], su, set["end-rate"], eu, rr.IterationDuration, desc)
+					return
+				}
+			}
+		}
 		if trig == nil || trig.Trigger == nil || trig.DryRun == nil {
 			o.Violate("flags-nil:"+desc, "accepted flags produced an unusable trigger (%s)", desc)
 			return
@@ -995,6 +1008,16 @@ func c14CLI(c *core.Case, o *core.Outcome) {
 				return
 			}
 			defer os.Remove(path)
+			switch r.IntN(8) {
+			case 0:
+				path = os.Getenv("TMPDIR") // a directory: opens, cannot be read
+			case 1:
+				path = path + ".does-not-exist"
+			case 2:
+				path = "/dev/null"
+			case 3:
+				path = ""
+			}
 			args = append(args, path)
 		}
 		if mode != "file" {
